@@ -26,6 +26,15 @@ def one(sid, claimed):
         shutil.rmtree(tmp, ignore_errors=True)
 
 
+def first_of(meta):
+    fr = meta.get("first_result")
+    if isinstance(fr, dict):
+        return fr.get("caught_by")
+    if fr == "missed":
+        return []
+    return fr
+
+
 def main():
     claimed = json.load(open(os.path.join(VERIF, "engine", "claimed.json")))
     only = sys.argv[1:]
@@ -43,6 +52,6 @@ def main():
             meta["expect"] = {pid: "rule=" for pid in caught}
             json.dump(meta, open(mp, "w"), indent=1)
             print("%-10s %s%s" % (sid, ", ".join("%s[%s]" % (k, v[0].split("rule=")[1].split("  ")[0]) for k, v in caught.items()) or "MISSED",
-                                  "   (first: %s)" % (meta["first_result"]["caught_by"] or "missed")))
+                                  "   (first: %s)" % (first_of(meta) or "missed")))
 
 main()
